@@ -27,6 +27,9 @@ type decTaint struct {
 	fns     map[*ssa.Function]bool
 	tainted map[ssa.Value]bool
 	buffer  map[ssa.Value]bool
+	// payload: values computed from the bytes of a buffer by the code under analysis itself (as opposed to scalars a
+	// reading helper returned: run headers, run values, the length prefix)
+	payload map[ssa.Value]bool
 }
 
 func isByteSliceOrPtr(t types.Type) bool {
@@ -45,7 +48,7 @@ func decoderTaint(u *Universe) *decTaint {
 	if read == nil {
 		return nil
 	}
-	d := &decTaint{fns: map[*ssa.Function]bool{}, tainted: map[ssa.Value]bool{}, buffer: map[ssa.Value]bool{}}
+	d := &decTaint{fns: map[*ssa.Function]bool{}, tainted: map[ssa.Value]bool{}, buffer: map[ssa.Value]bool{}, payload: map[ssa.Value]bool{}}
 	for f := range u.reach([]*ssa.Function{read}) {
 		if u.pkgPathOf(f) == rlePath && f.Blocks != nil {
 			d.fns[f] = true
@@ -79,6 +82,13 @@ func decoderTaint(u *Universe) *decTaint {
 			d.tainted[v] = true
 			changed = true
 		}
+	}
+	markP := func(v ssa.Value) {
+		if v != nil && !d.payload[v] {
+			d.payload[v] = true
+			changed = true
+		}
+		markT(v)
 	}
 	for iter := 0; changed && iter < 50; iter++ {
 		changed = false
@@ -115,20 +125,31 @@ func decoderTaint(u *Universe) *decTaint {
 								if d.tainted[cargs[i]] {
 									markT(p)
 								}
+								if d.payload[cargs[i]] {
+									markP(p)
+								}
 								if d.buffer[cargs[i]] {
 									markB(p)
 								}
 							}
 							// what a function that reads from the stream (or is handed stream content) returns is stream content
 							fromStream := hasReaderParam(sc)
+							fromBytes := false
 							for _, a := range cargs {
 								if d.tainted[a] || d.buffer[a] {
 									fromStream = true
 								}
+								if d.payload[a] || d.buffer[a] {
+									fromBytes = true
+								}
 							}
 							if fromStream {
 								if _, isT := x.Type().(*types.Tuple); !isT && !isErrorType(x.Type()) {
-									markT(x)
+									if fromBytes {
+										markP(x)
+									} else {
+										markT(x)
+									}
 								}
 							}
 						}
@@ -147,6 +168,9 @@ func decoderTaint(u *Universe) *decTaint {
 							}
 						}
 					case *ssa.Extract:
+						if nx, ok := x.Tuple.(*ssa.Next); ok && d.payload[nx] {
+							markP(x)
+						}
 						if c, ok := x.Tuple.(*ssa.Call); ok && !isErrorType(x.Type()) {
 							sc := c.Call.StaticCallee()
 							if sc != nil && d.fns[sc] {
@@ -176,6 +200,9 @@ func decoderTaint(u *Universe) *decTaint {
 							if d.tainted[e] {
 								markT(x)
 							}
+							if d.payload[e] {
+								markP(x)
+							}
 						}
 						if d.buffer[x] {
 							for _, e := range x.Edges {
@@ -189,7 +216,7 @@ func decoderTaint(u *Universe) *decTaint {
 							switch a := x.X.(type) {
 							case *ssa.IndexAddr:
 								if d.buffer[a.X] {
-									markT(x)
+									markP(x)
 								}
 							default:
 								if d.buffer[x.X] {
@@ -198,14 +225,23 @@ func decoderTaint(u *Universe) *decTaint {
 							}
 						} else if d.tainted[x.X] {
 							markT(x)
+							if d.payload[x.X] {
+								markP(x)
+							}
 						}
 					case *ssa.BinOp:
 						if d.tainted[x.X] || d.tainted[x.Y] {
 							markT(x)
 						}
+						if d.payload[x.X] || d.payload[x.Y] {
+							markP(x)
+						}
 					case *ssa.Convert:
 						if d.tainted[x.X] {
 							markT(x)
+						}
+						if d.payload[x.X] {
+							markP(x)
 						}
 					case *ssa.ChangeType:
 						if d.tainted[x.X] {
@@ -214,12 +250,13 @@ func decoderTaint(u *Universe) *decTaint {
 					case *ssa.Next:
 						// range over a buffer
 						if rg, ok := x.Iter.(*ssa.Range); ok && d.buffer[rg.X] {
-							markT(x)
+							markP(x)
 						}
 					case *ssa.Index:
 						if d.buffer[x.X] {
-							markT(x)
+							markP(x)
 						}
+
 					}
 				}
 			}
@@ -380,7 +417,8 @@ func laRLEDecoder(c *Ctx, rules map[string]bool) {
 					// the tests this call is control dependent on
 					var deps []string
 					for _, g := range controlling(b) {
-						if !d.tainted[g.iff.Cond] {
+						// only tests on the bytes of the run (not on the header the run was announced by)
+						if !d.payload[g.iff.Cond] {
 							continue
 						}
 						// the loop test itself (len(raw) > 0) is about how much is left, not about content
@@ -417,4 +455,214 @@ func isLenTest(cond ssa.Value) bool {
 		return false
 	}
 	return isLen(bo.X) || isLen(bo.Y)
+}
+
+// laRLERunValue (C07, C01): the value byte(s) of an RLE run carry the run's level unchanged. The function the run writer
+// obtains them from (handed the repeated level and the bit width) is interpreted by the bit-provenance interpreter for
+// every width 1..4 with a fully symbolic level: it must return ceil(width/8) = 1 byte whose bits 0..width-1 are bits
+// 0..width-1 of the level (a narrower mask drops the high bit of wide levels: 9 is stored as 1).
+func laRLERunValue(c *Ctx) {
+	r, u := c.R, c.U
+	n := 0
+	for _, f := range rleFuncs(u) {
+		// the run writer: the function that writes (repeat counter << 1) as an RLE run header
+		isRunWriter := false
+		for _, b := range f.Blocks {
+			for _, ins := range b.Instrs {
+				if bo, ok := ins.(*ssa.BinOp); ok && bo.Op == token.SHL && constIs(bo.Y, 1) && fieldOfLoad(stripConvert(bo.X)) != nil {
+					for _, ref := range *bo.Referrers() {
+						if _, isCall := ref.(*ssa.Call); isCall {
+							isRunWriter = true
+						}
+					}
+				}
+			}
+		}
+		if !isRunWriter {
+			continue
+		}
+		for _, b := range f.Blocks {
+			for _, ins := range b.Instrs {
+				call, ok := ins.(*ssa.Call)
+				if !ok {
+					continue
+				}
+				sc := call.Call.StaticCallee()
+				if sc == nil || u.pkgPathOf(sc) != rlePath || sc.Blocks == nil || sc.Signature.Results().Len() == 0 {
+					continue
+				}
+				if sl, ok := sc.Signature.Results().At(0).Type().Underlying().(*types.Slice); !ok || !isByteSlice(sl) {
+					continue
+				}
+				// arguments: a uint8 level and an integer width, nothing else but the receiver
+				vi, wi := -1, -1
+				args := callArgs(&call.Call)
+				for i, a := range args {
+					if i >= len(sc.Params) {
+						continue
+					}
+					bt, ok := sc.Params[i].Type().Underlying().(*types.Basic)
+					if !ok {
+						continue
+					}
+					switch {
+					case bt.Kind() == types.Uint8 && fieldOfLoad(stripConvert(a)) != nil:
+						vi = i
+					case bt.Info()&types.IsInteger != 0 && bt.Kind() != types.Uint8:
+						wi = i
+					}
+				}
+				if vi < 0 || wi < 0 {
+					continue
+				}
+				// nothing else but the receiver (a function that also takes the stream is a reader, not this)
+				extra := false
+				for i, p := range sc.Params {
+					if i == vi || i == wi {
+						continue
+					}
+					if _, isPtr := p.Type().Underlying().(*types.Pointer); !isPtr || i != 0 || sc.Signature.Recv() == nil {
+						extra = true
+					}
+				}
+				if extra {
+					continue
+				}
+				n++
+				wbits, _ := intWidth(sc.Params[wi].Type())
+				for w := 1; w <= 4; w++ {
+					key := fmt.Sprintf("%s run value width %d", u.FnName(sc), w)
+					in := make([]aval, len(sc.Params))
+					for i, p := range sc.Params {
+						switch i {
+						case vi:
+							in[i] = symInput(0, 8)
+						case wi:
+							in[i] = mkConst(int64(w), wbits)
+						default:
+							_ = p
+							in[i] = nil // the receiver: not used by a pure byte formatter (its use makes the run undecided)
+						}
+					}
+					res, err := bpRun(u, sc, in)
+					if err != "" {
+						r.undecided("LA-runkind", key, u.Pos(sc.Pos()), "abstract interpretation undecided: "+err)
+						continue
+					}
+					bits, nb, serr := sliceBits(res[0])
+					switch {
+					case serr != "":
+						r.undecided("LA-runkind", key, u.Pos(sc.Pos()), serr)
+					case nb != 1:
+						r.bad("LA-runkind", key, u.Pos(sc.Pos()), fmt.Sprintf("an RLE run's value takes %d bytes at width %d, want 1", nb, w))
+					default:
+						okBits := true
+						for k := 0; k < w; k++ {
+							if bits[k] != (bit{k: 2, i: 0, b: k}) {
+								okBits = false
+							}
+						}
+						if okBits {
+							r.ok("LA-runkind", key, u.Pos(sc.Pos()), "the run's value byte carries the level's low bits unchanged")
+						} else {
+							r.bad("LA-runkind", key, u.Pos(sc.Pos()), fmt.Sprintf("at width %d the value byte of an RLE run does not carry bits 0..%d of the level unchanged: runs of wide levels are written with another value (e.g. 9 as 1)", w, w-1))
+						}
+					}
+				}
+			}
+		}
+	}
+	r.count("LA-runkind/run-value-writers", n)
+	r.floor("LA-runkind/run-value-writers", 1, "writeRLERun -> writeIntLittleEndianPaddedOnBitWidth")
+}
+
+func isByteSlice(sl *types.Slice) bool {
+	b, ok := sl.Elem().Underlying().(*types.Basic)
+	return ok && b.Kind() == types.Uint8
+}
+
+// laBufGrowth (C07, C01): the encoder's output buffer. Where a write at an offset copies into `buf[off:]`, every
+// reallocation of the buffer in that function makes it at least off + len(data) long — a growth rule that does not
+// depend on both (doubling the old length, say) leaves the copy short for small buffers, and copy() drops what does not
+// fit without an error. Only reallocations by make([]byte, n) are judged.
+func laBufGrowth(c *Ctx) {
+	r, u := c.R, c.U
+	n := 0
+	for _, f := range rleFuncs(u) {
+		for _, b := range f.Blocks {
+			for _, ins := range b.Instrs {
+				call, ok := ins.(*ssa.Call)
+				if !ok {
+					continue
+				}
+				bi, ok := call.Call.Value.(*ssa.Builtin)
+				if !ok || bi.Name() != "copy" || len(call.Call.Args) != 2 {
+					continue
+				}
+				dst, ok := call.Call.Args[0].(*ssa.Slice)
+				if !ok || dst.Low == nil {
+					continue
+				}
+				fld := fieldOfLoad(dst.X)
+				src, isParam := call.Call.Args[1].(*ssa.Parameter)
+				off := stripConvert(dst.Low)
+				if fld == nil || !isParam {
+					continue
+				}
+				if _, ok := off.(*ssa.Parameter); !ok {
+					continue
+				}
+				n++
+				key := u.FnName(f) + " buffer growth"
+				var bad []string
+				judged := 0
+				for _, b2 := range f.Blocks {
+					for _, i2 := range b2.Instrs {
+						st, ok := i2.(*ssa.Store)
+						if !ok || fieldOf(st.Addr) != fld {
+							continue
+						}
+						ms, ok := st.Val.(*ssa.MakeSlice)
+						if !ok {
+							continue
+						}
+						judged++
+						// the length as a sum of terms
+						terms := map[ssa.Value]bool{}
+						var sum func(v ssa.Value, d int)
+						sum = func(v ssa.Value, d int) {
+							v = stripConvert(v)
+							if bo, ok := v.(*ssa.BinOp); ok && bo.Op == token.ADD && d < 6 {
+								sum(bo.X, d+1)
+								sum(bo.Y, d+1)
+								return
+							}
+							terms[v] = true
+						}
+						sum(ms.Len, 0)
+						hasOff, hasLen := false, false
+						for t := range terms {
+							if t == off {
+								hasOff = true
+							}
+							if lc, ok := t.(*ssa.Call); ok {
+								if b3, ok := lc.Call.Value.(*ssa.Builtin); ok && b3.Name() == "len" && lc.Call.Args[0] == ssa.Value(src) {
+									hasLen = true
+								}
+							}
+						}
+						if !hasOff || !hasLen {
+							bad = append(bad, fmt.Sprintf("the buffer is reallocated at %s with length %s, which is not at least offset + len(data): the copy into buf[offset:] that follows can be short, and copy() silently drops what does not fit", u.Pos(ms.Pos()), symExpr(ms.Len, 0)))
+						}
+					}
+				}
+				if len(bad) > 0 {
+					r.bad("LA-runkind", key, u.Pos(call.Pos()), strings.Join(bad, "; "))
+				} else {
+					r.ok("LA-runkind", key, u.Pos(call.Pos()), fmt.Sprintf("%d reallocation(s), each to at least offset + len(data)", judged))
+				}
+			}
+		}
+	}
+	r.count("LA-runkind/buffer-writes-at-offset", n)
 }
